@@ -130,8 +130,10 @@ static int pick_flag_any(Tape &t, int wrapper, bool &strip) {
 // (1) mutants of valid streams: every truncation, every single-bit flip, a substitution at every offset (small streams)
 static void body_mutants(Tape &t, Ctx &c) {
 	streams::Built b;
-	streams::build(t, b, 200, true);
-	if (b.stream.size() > 400 || b.data.size() > 6000) throw Skip("stream too large for the exhaustive mutation sweep");
+	// one case in four: ISA-L's own level-0 output (default tables -> the decoder's pre-generated-header shortcut), every bit of that header flipped
+	if (t.range(0, 3) == 0) streams::build(t, b, 900, true, 2, 0);
+	else streams::build(t, b, 200, true);
+	if (b.stream.size() > 500 || b.data.size() > 6000) throw Skip("stream too large for the exhaustive mutation sweep");
 	bool strip;
 	int crc_flag = pick_flag_any(t, b.wrapper, strip);
 	bool stateless = t.range(0, 2) == 0;
@@ -226,7 +228,7 @@ static void body_wrapper_faults(Tape &t, Ctx &c) {
 		switch (wf) {
 		case 0: g.id1 = (uint8_t) t.pick<uint32_t>({0x1e, 0x00, 0x8b}); name = "bad gzip magic"; want = ISAL_INVALID_WRAPPER; break;
 		case 1: g.id2 = (uint8_t) t.pick<uint32_t>({0x8a, 0x1f, 0x00}); name = "bad gzip magic"; want = ISAL_INVALID_WRAPPER; break;
-		case 2: g.cm = (uint8_t) t.pick<uint32_t>({0, 7, 9, 255}); name = "gzip CM != 8"; want = ISAL_UNSUPPORTED_METHOD; break;
+		case 2: { uint32_t r = t.raw(); g.cm = (r & 1) ? (uint8_t) "\x00\x07\x09\xff\x18\x78\x88\xf8"[(r >> 1) % 8] : (uint8_t) (r >> 8); if (g.cm == 8) g.cm = 0x28; name = "gzip CM != 8"; want = ISAL_UNSUPPORTED_METHOD; break; }
 		case 3: g.hcrc = true; bad_hcrc = true; name = "bad gzip header CRC16"; break;
 		default: name = "wrong gzip CRC32/ISIZE"; break;
 		}
